@@ -176,7 +176,17 @@ def run_case(ctx, bt, case, collected, replaying=False):
             slack = 1e-9 * max(1.0, abs(V0), abs(want), abs(got))
         else:
             units = sum(abs(s._price * s.multiplier) for s in leaves(bt, k))
-            slack = units + costs + 1e-9 * max(1.0, abs(V0))
+            # "one trading unit plus costs": the costs paid, and the cost the next unit would have carried (the sizing rule stops
+            # when one more unit INCLUDING its commission and half-spread no longer fits)
+            fn = root.commission_fn if hasattr(root, "commission_fn") else None
+            marginal = 0.0
+            for sx in leaves(bt, k):
+                pm = abs(sx._price * sx.multiplier)
+                try:
+                    marginal += abs(sx.parent.commission_fn(1.0, pm)) + abs(0.5 * (sx._bidoffer if sx._bidoffer_set and sx._bidoffer == sx._bidoffer else 0.0) * sx.multiplier)
+                except Exception:
+                    pass
+            slack = units + costs + marginal + 1e-9 * max(1.0, abs(V0))
         if abs(got - want) > slack:
             key = "C06/target-missed" + (":cash" if case["cash"] is not None else "") + (":sub-strategy" if not isinstance(k, bt.core.SecurityBase) else "")
             ctx.violation(key, "child %s value %r after Rebalance, target (1-%r)*%r*%r = %r (prior weight %r, slack %r)"
@@ -216,6 +226,10 @@ def over_time(ctx, bt, n_cases):
                 w[nm] = x
                 tot += abs(x)
         prior = {nm: ctx.rng.choice([0.0, 0.1, -0.2, 0.3]) for nm in names}
+        for nm in names:
+            # a held child that already sits exactly on its target (flat prices, re-arming with the weights just reached)
+            if nm in w and ctx.rng.random() < 0.3:
+                prior[nm] = w[nm]
         case = {"mode": "over-time", "n": n, "prices": prices, "w": w, "prior": prior}
         ctx.evaluations += 1
         run_over_time(ctx, bt, case)
@@ -237,10 +251,19 @@ def run_over_time(ctx, bt, case):
             s.rebalance(pw, nm)
     s.update(dates[0])
     algo = bt.algos.RebalanceOverTime(n=n)
+    w0 = {nm: (s.children[nm].weight if nm in s.children else 0.0) for nm in case["prices"]}
     for i in range(n):
         s.update(dates[i + 1])
         s.temp = {"weights": dict(case["w"])} if i == 0 else {}
         algo(s)
+        # n EQUAL steps: after step i+1 every targeted child stands at prior + (i+1)/n of the way (constant prices, no costs, fractional)
+        for nm, want in case["w"].items():
+            got = s.children[nm].weight if nm in s.children else 0.0
+            exp = w0[nm] + (want - w0[nm]) * (i + 1) / n
+            if abs(got - exp) > 1e-9:
+                ctx.violation("C06/over-time-step", "RebalanceOverTime(n=%d): after step %d %s has weight %r, an equal step from %r towards %r gives %r"
+                              % (n, i + 1, nm, got, w0[nm], want, exp), case)
+                return
     V = s.value
     ctx.classes.add(("over-time", n, len(case["w"]), tuple(sorted(case["prior"].values()))))
     for nm in case["prices"]:
